@@ -31,6 +31,7 @@ type Solver struct {
 	CacheHits int
 	buf       strings.Builder
 	Where     func() string
+	ByWhere   map[string][2]float64
 }
 
 const (
@@ -69,6 +70,9 @@ func (s *Solver) start() {
 	s.send("(set-logic QF_BV)\n")
 	s.nAxioms, s.nVars = 0, 0
 	for _, t := range termTab {
+		t.sent = false
+	}
+	for _, t := range varTab {
 		t.sent = false
 	}
 }
@@ -188,6 +192,13 @@ func (s *Solver) check(conds []*Term, wantModel bool) (int, map[string]uint64) {
 	s.send(sb.String())
 	line := s.readLine()
 	dt := time.Since(t0).Seconds()
+	if s.ByWhere != nil {
+		w := s.Where()
+		e := s.ByWhere[w]
+		e[0]++
+		e[1] += dt
+		s.ByWhere[w] = e
+	}
 	s.Seconds += dt
 	s.Queries++
 	if dt > 0.3 && os.Getenv("GOSYM_SLOW") != "" {
